@@ -528,7 +528,7 @@ pub fn run(opts: &Opts) -> Report {
         pending.push(Pending {
             request: format!("exec {} {}", env_wire(&[], &binds, &users), hex(src.as_bytes())),
             implementation: if o == "ok" { "ok".to_string() } else { "E".to_string() },
-            level: 7,
+            level: 8,
             input: format!("{} [bindings variant {}]", src, variant),
         });
     }
